@@ -97,6 +97,17 @@ def run(ctx):
         if not bad and set(r) == {"parked", "block"} and rel == "<=" and any(c.bb in ct.reachable(s) and not ct.dominates(c.bb, b) for c in rm):
             if r == {"parked": 1, "block": -1}:
                 expiry = (r, k, fm)
+        # the same test read off its complement: when the predicate is `match arrival { Some(n) => n + W <= block, None => true }`
+        # the "expired" edge is a disjunction and has no single linear form, but the "keep" edge has: `block - parked - (W-1) <= 0`
+        # must be exactly the edge that cannot reach the removal within the iteration, its sibling the one that does
+        if expiry is None and not bad and r == {"parked": -1, "block": 1} and rel == "<=" and rm \
+                and all(c.bb not in ct.reachable(s, avoid={b}) for c in rm) \
+                and any(c.bb in ct.reachable(s2, avoid={b}) for c in rm for s2 in ct.succ(b) if s2 != s):
+            neg = fm.negate()
+            if neg is not None:
+                r2, k2, rel2, bad2 = neg.roles(role2)
+                if not bad2 and r2 == {"parked": 1, "block": -1} and rel2 == "<=":
+                    expiry = (r2, k2, neg)
     R.ob(expiry is not None and expiry[1] == 10 and any("MAX_FUTURE_TRANSACTION_BLOCKS" in c for c in expiry[2].lin.consts), "GUARD", ct.where(),
          "GUARD|expiry|window", "a parked transaction expires iff `%s`; expected `parked - block + 10 <= 0`" % (expiry[2].text(role2) if expiry else "absent"),
          sample={"rule": "GUARD", "site": "clear_txpool", "row": expiry[2].text(role2) if expiry else None})
